@@ -4,6 +4,7 @@ package c09
 import (
 	"encoding/json"
 	"fmt"
+	"sort"
 	"strings"
 
 	"verifharness/mc"
@@ -22,6 +23,8 @@ type Case struct {
 	// Aborted: Extra was registered inside a write transaction that was aborted (instead of registered
 	// and deleted)
 	Aborted bool `json:"aborted,omitempty"`
+	// Allow: case of the hosts-allow part (405 + automatic OPTIONS router)
+	Allow bool `json:"allow,omitempty"`
 }
 
 func buildAfterDelete(set []rsx.RouteSpec, extra string, first bool) (*rsx.Env, error) {
@@ -314,6 +317,98 @@ func runAfterDelete(c *mc.Ctx, r *mc.Result) {
 	})
 }
 
+// evalAllow: the host obligations on the answers computed from several per-method lookups (automatic
+// OPTIONS, 405): (a) when no hostname route of any method has a host equal to the request host, the
+// answer (status, Allow set) is the one for an empty Host; (b) a method that has a hostname route
+// matching host and path directly is listed in Allow.
+func evalAllow(e *rsx.Env, rq rsx.Req) (bool, string, string) {
+	var o, o0 rsx.Obs
+	var pv any
+	func() {
+		defer func() { pv = recover() }()
+		e.Serve(rq, &o)
+	}()
+	if pv != nil {
+		return true, "panic", fmt.Sprintf("panic: %v: set %s request %s (host %q)", pv, rsx.SetString(e.Set), rq, rq.Host)
+	}
+	stripped := ref.StripHost(rq.Host)
+	anyHostMatch := false
+	var must []string
+	for i, rr := range e.RRoutes {
+		if rr.Pat.HostLen == 0 || !hostMatches(rr.Pat, stripped) {
+			continue
+		}
+		anyHostMatch = true
+		if m := e.Single[i].Lookup(rq.Host, rq.MatchPath()); m.Route != nil && !m.Tsr && e.Set[i].Method != rq.Method {
+			must = append(must, e.Set[i].Method)
+		}
+	}
+	allow := "," + strings.ReplaceAll(o.Allow, " ", "") + ","
+	hdr := func() string {
+		return fmt.Sprintf("set %s request %s (host %q)\n    observed: status=%d allow=%q", rsx.SetString(e.Set), rq, rq.Host, o.Status, o.Allow)
+	}
+	for _, m := range must {
+		if !strings.Contains(allow, ","+m+",") {
+			return true, "host-route-not-used", fmt.Sprintf("method %s has a hostname route matching host and path directly, but it is missing from Allow: %s", m, hdr())
+		}
+	}
+	if !anyHostMatch && rq.Host != "" {
+		rq0 := rq
+		rq0.Host = ""
+		e.Serve(rq0, &o0)
+		a0 := strings.Split(strings.ReplaceAll(o0.Allow, " ", ""), ",")
+		a1 := strings.Split(strings.ReplaceAll(o.Allow, " ", ""), ",")
+		sort.Strings(a0)
+		sort.Strings(a1)
+		if o0.Status != o.Status || strings.Join(a0, ",") != strings.Join(a1, ",") {
+			return true, "fallback-differs", fmt.Sprintf("no hostname route matches host %q, yet the answer differs from the path-only answer (status=%d allow=%q): %s", rq.Host, o0.Status, o0.Allow, hdr())
+		}
+	}
+	return len(must) > 0, "", ""
+}
+
+// runAllow: subsets <=2 of the pattern pool, methods GET/POST assigned in both ways, router with
+// method-not-allowed and automatic OPTIONS; OPTIONS and DELETE requests for every host and path.
+func runAllow(c *mc.Ctx, r *mc.Result) {
+	pats := patterns()
+	hosts := append(allHosts(3), structured...)
+	paths := rsx.GenPaths([]string{"a", "b"}, 2)
+	r.Bounds["pool"] = fmt.Sprintf("%d patterns, subsets<=2 under {GET,POST} in both assignments, 405 + automatic OPTIONS enabled; OPTIONS and DELETE requests x all hosts of length<=3 over {a,b,1,.} + %d structured x %d paths", len(pats), len(structured), len(paths))
+	rsx.Subsets(len(pats), 2, func(i int, idx []int) {
+		if !c.Mine(i) {
+			return
+		}
+		for flip := 0; flip < 2; flip++ {
+			set := make([]rsx.RouteSpec, 0, len(idx))
+			for k, j := range idx {
+				set = append(set, rsx.RouteSpec{Method: []string{"GET", "POST"}[(k+flip)%2], Pattern: pats[j]})
+			}
+			e, err := rsx.Build(set, rsx.Profile{NoMethod: true, AutoOptions: true})
+			if err != nil {
+				r.Count("sets_rejected_by_router", 1)
+				continue
+			}
+			r.States++
+			for _, h := range hosts {
+				for _, p := range paths {
+					for _, m := range []string{"OPTIONS", "DELETE"} {
+						rq := rsx.Req{Method: m, Host: h, Path: p}
+						nontriv, class, msg := evalAllow(e, rq)
+						r.Evaluations++
+						r.Transitions++
+						if nontriv {
+							r.DistinctNontrivial++
+						}
+						if class != "" {
+							r.Violate("hosts-allow", class, msg, Case{Set: set, Req: rq, Allow: true})
+						}
+					}
+				}
+			}
+		}
+	})
+}
+
 // runAfterAbort: sets of 2..3 routes whose first bytes differ (so that the method root has 2..3
 // children, spare capacity included), then one more pattern registered inside a write transaction
 // that is aborted; the hostname obligations must hold as if the transaction had never existed.
@@ -371,6 +466,14 @@ func replay(c *mc.Ctx, raw json.RawMessage) string {
 	if err := json.Unmarshal(raw, &cs); err != nil {
 		return "bad case: " + err.Error()
 	}
+	if cs.Allow {
+		e, err := rsx.Build(cs.Set, rsx.Profile{NoMethod: true, AutoOptions: true})
+		if err != nil {
+			return ""
+		}
+		_, _, msg := evalAllow(e, cs.Req)
+		return msg
+	}
 	if cs.Aborted {
 		e, err := rsx.BuildAfterAbort(cs.Set, "GET", cs.Extra, rsx.Profile{})
 		if err != nil {
@@ -405,12 +508,12 @@ func init() {
 	mc.Register(&mc.Check{
 		ID:    "C09",
 		Level: "exploration",
-		Rule: "every subset (size<=K) of a 35-pattern pool mixing hostname and path-only patterns x every Host string up to a length over {a,b,1,.} plus structured variants (port, trailing dot, IPv4/IPv6 literals, empty, garbage) x paths of depth<=2; the same on routers that additionally went through the registration and deletion of one more pattern (part hosts-after-delete) or through an aborted transaction that registered one more pattern (part hosts-after-abort); " +
+		Rule: "every subset (size<=K) of a 35-pattern pool mixing hostname and path-only patterns x every Host string up to a length over {a,b,1,.} plus structured variants (port, trailing dot, IPv4/IPv6 literals, empty, garbage) x paths of depth<=2; the same on routers that additionally went through the registration and deletion of one more pattern (part hosts-after-delete) or through an aborted transaction that registered one more pattern (part hosts-after-abort); the Allow lists of automatic OPTIONS and 405 answers under the same host obligations (part hosts-allow); " +
 			"non-trivial = the method has hostname routes and the host equals a hostname pattern or contains its distinguishing label",
 		Assumptions: []string{
 			"host normalisation reference: net.SplitHostPort when a ':' is present (unchanged on error), then one trailing dot removed",
 			"obligations are host-only: whole-host equality of any selected hostname route, value round trip, exact path-only answer when no hostname route can be involved, reference direct match under a matching host (direct matching itself is validated by C01)",
 		},
-		Parts: []mc.Part{{Name: "hosts", Run: run, Replay: replay}, {Name: "hosts-after-delete", Run: runAfterDelete, Replay: replay}, {Name: "hosts-after-abort", Run: runAfterAbort, Replay: replay}},
+		Parts: []mc.Part{{Name: "hosts", Run: run, Replay: replay}, {Name: "hosts-after-delete", Run: runAfterDelete, Replay: replay}, {Name: "hosts-after-abort", Run: runAfterAbort, Replay: replay}, {Name: "hosts-allow", Run: runAllow, Replay: replay}},
 	})
 }
